@@ -6,7 +6,7 @@
    C03 round-trip theorems apply verbatim to every frame C07 talks about.
    Only statements, each closed by [exact]. *)
 From PV Require Import Base.Prelude Base.Slice Model.EncodeBase Model.Encode Model.EncodeCompose Model.EncodeDHCP Spec.EncodeRef Spec.EncodeRefDHCP
-     Proofs.EncodeIP4 Proofs.EncodeMisc Proofs.EncodeCompose Proofs.EncodeDHCP Proofs.EncodeGlue Proofs.EncodeGlueDHCP Proofs.EncodeGluePath.
+     Proofs.EncodeIP4 Proofs.EncodeMisc Proofs.EncodeCompose Proofs.EncodeDHCP Proofs.EncodeGlue Proofs.EncodeGlueDHCP Proofs.EncodeGluePath Proofs.EncodeNdpOpts.
 From PV Require Model.DHCP.
 From PV Require Model.SendBase Model.Send Model.SendUdp Model.SendNdp.
 Open Scope N_scope.
@@ -298,3 +298,40 @@ Example C03_glue_na_path_ex :
               (repeat 170 1522) = Ok [f] /\ length f = 86%nat.
 Proof. exact glue_na_path_ex. Qed.
 Print Assumptions C03_glue_na_path_ex.
+
+(* NDP options.  RawOption.marshal — and through it LinkLayerAddress, MTU, PrefixInformation,
+   RecursiveDNSServer and DNSSearchList .marshal as modelled by SEND — is inverted by the RFC 4861 4.6
+   reference option decoder: (type, value) pairs in order, for every Length octet below 32 (above, the
+   library's uint8 product Length*8 wraps). *)
+Theorem C03_glue_nd_options_rt : forall (l : list raw3) ob,
+  Forall len_ok l -> SendNdp.cat_opts (map marshal_raw l) = Some ob ->
+  ref_nd_options (S (length ob)) ob = Some (map decoded_raw l).
+Proof. exact nd_options_rt. Qed.
+Print Assumptions C03_glue_nd_options_rt.
+
+(* Ether o IP6 o ICMPv6 o RA with options: the whole path of ICMP6SendRouterAdvertisement *)
+Theorem C03_glue_ra_path : forall c (src dst : SendBase.addr) (l : list raw3) ob junk,
+  length junk = SendBase.EthMaxSize -> length (SendBase.host_mac c) = 6%nat -> length (SendBase.a_mac dst) = 6%nat ->
+  length (SendBase.a_ip src) = 16%nat -> length (SendBase.a_ip dst) = 16%nat ->
+  bytes_ok (SendBase.a_ip src) -> bytes_ok (SendBase.a_ip dst) ->
+  Forall len_ok l -> SendNdp.cat_opts (map marshal_raw l) = Some ob -> bytes_ok ob ->
+  (70 + length ob <= SendBase.EthMaxSize)%nat ->
+  exists f ipb icmpb,
+    Send.icmp6_send_packet c src dst (SendNdp.ra_body ob) junk = Ok [f] /\ length f = (70 + length ob)%nat /\
+    ref_ether f = Some {| re_dst := SendBase.a_mac dst; re_src := SendBase.host_mac c; re_type := 34525; re_payload := ipb |} /\
+    ref_ip6 ipb = Some (ip6_expected_ref 58 255 (SendBase.a_ip src) (SendBase.a_ip dst) icmpb) /\
+    firstn 2 icmpb = [134; 0] /\ firstn 12 (skipn 4 icmpb) = firstn 12 (skipn 4 (SendNdp.ra_body ob)) /\
+    ref_nd_options (S (length ob)) (skipn 16 icmpb) = Some (map decoded_raw l).
+Proof. exact glue_ra_path. Qed.
+Print Assumptions C03_glue_ra_path.
+
+Example C03_glue_nd_options_rt_ex :
+  let pfx := [32;1;13;184;0;0;0;0;0;0;0;0;0;0;0;0] in
+  exists ob,
+    SendNdp.cat_opts [SendNdp.prefix_option 64 true true 7200 1800 pfx; SendNdp.mtu_option 1500;
+                      SendNdp.lla_option 1 [2;0;0;0;0;1]] = Some ob /\
+    length ob = 48%nat /\
+    option_map (map fst) (ref_nd_options (S (length ob)) ob) = Some [3; 5; 1] /\
+    option_map (find_opt 1) (ref_nd_options (S (length ob)) ob) = Some (Some [2;0;0;0;0;1]).
+Proof. exact nd_options_rt_ex. Qed.
+Print Assumptions C03_glue_nd_options_rt_ex.
